@@ -13,6 +13,15 @@
 //	        relayer (nobody answers) or a scripted earlier candidate; during the retried attempt the
 //	        relayer is fed ready / initiate / start messages and FORGED fail messages from peers that
 //	        are not the retried attempt's coordinator (handleError's watcher is told the empty id)
+//	multi   ONE real tss.Coordinator object serving two or three overlapping sessions (Execute once per
+//	        session, concurrently) whose elected coordinators differ; every session is fed initiate /
+//	        start / fail messages of the OTHER sessions' coordinators and of its own; also with every
+//	        session in its retried attempt (scripted bully winners)
+//
+// Peer tables may hold LOOK-ALIKE ids (twins.go): peers whose ids agree with the id of a coordinator / key
+// holder / excluded peer / this relayer under a lossy projection (same first and last characters, case
+// folding, prefix, extension, one byte changed, ...).  They send the forged messages, report ready, are
+// listed as key holders, or are this relayer itself (which then must not take the coordinator's part).
 //
 // and reports what the implementation did.  The session sort keys handed to the Coq model are
 // computed here from the specification (tssfakes.C07SortKey), not taken from the code under test.
@@ -43,7 +52,8 @@ import (
 )
 
 type Msg struct {
-	Type   string `json:"type"` // initiate | start | fail
+	Type   string `json:"type"` // initiate | start | fail; multi: also launch (Execute of session S is called)
+	S      int    `json:"s,omitempty"` // multi: the session (index into Sids) the message is for
 	From   int    `json:"from"`
 	Params []int  `json:"params,omitempty"`
 	Bad    bool   `json:"bad,omitempty"` // start: payload is not a start message
@@ -51,8 +61,10 @@ type Msg struct {
 }
 
 type Case struct {
-	Kind     string   `json:"kind"`  // elect | params | subset | wait
-	Peers    []string `json:"peers"` // peer table; everything else refers to it by index
+	Kind     string   `json:"kind"`  // elect | params | subset | wait | retry | timed | multi
+	Peers    []string `json:"peers"` // peer table; everything else refers to it by index (base58 text, or raw:<hex>, see twins.go)
+	Twins    []Twin   `json:"twins,omitempty"` // which peers of the table are look-alikes of which (the ids themselves are the input)
+	Sids     []string `json:"sids,omitempty"`  // multi: the session ids of the overlapping sessions of one Coordinator object
 	Sid      string   `json:"sid"`
 	Holders  []int    `json:"holders"`
 	Perm     []int    `json:"perm,omitempty"`
@@ -68,6 +80,9 @@ type Case struct {
 	Ready1 []int  `json:"ready1,omitempty"` // first attempt, coordinator role: senders of ready messages
 	Start1 []int  `json:"start1,omitempty"` // first attempt, other role: params of the coordinator's start message
 	Winner *int   `json:"winner,omitempty"` // an earlier candidate announces itself; nil = nobody answers, this relayer coordinates
+	// multi with Cause = comm: every session's first attempt fails with a CommunicationError and the scripted
+	// bully election of session k is won by Winners[k]; the script is that of the retried attempts
+	Winners []int `json:"winners,omitempty"`
 	Evs    []Ev   `json:"evs,omitempty"`    // retried attempt, coordinator role: ready and fail messages
 	// timed: Coordinator.CoordinatorTimeout / TssTimeout in ms (0 = one hour) and how long the relayer is
 	// watched (ms after its wait began); Msgs carry arrival times.  Winner == nil: the first attempt's
@@ -112,6 +127,14 @@ type Obs struct {
 	Run        *[]int   `json:"run,omitempty"`
 	Outs       []Out    `json:"outs,omitempty"`
 	Aborted    bool     `json:"aborted,omitempty"`
+	// wait / multi: the relayer was seen doing the coordinator's side (ready subscription, initiate broadcast)
+	Coordinates bool       `json:"coordinates,omitempty"`
+	SKeys       [][]uint64 `json:"skeys,omitempty"` // multi: sort keys per session
+	SOuts       [][]Out    `json:"souts,omitempty"` // multi: actions per session
+	// wait / retry (other role) / multi: the messages of the script (indices) that did NOT ARRIVE: their
+	// session was over before they could be handed over (never offered, or the offer ended unconsumed
+	// because the session function returned).  The model and the judge are given the messages that arrived.
+	Dropped []int `json:"dropped,omitempty"`
 	OtherError string   `json:"other_error,omitempty"`
 	// the RUNNER could not drive the case (a phase it scripts did not come about, it could not keep a
 	// schedule, a wait ran into a shortened deadline): says nothing about the code under test - the case
@@ -162,7 +185,7 @@ type tbl struct {
 func table(c Case) tbl {
 	t := tbl{ix: map[peer.ID]int{}}
 	for i, s := range c.Peers {
-		id, err := peer.Decode(s)
+		id, err := decodePeer(s)
 		if err != nil {
 			panic(fmt.Sprintf("case peer %d: %v", i, err))
 		}
@@ -385,11 +408,19 @@ func runWait(c Case, t tbl, o *Obs) {
 	d := &fk.C07Driver{Comm: cm, Proc: proc, Sid: c.Sid, Done: done}
 	var last *Msg // the last consumed message that can end a session
 	sawBad := false
+	// which side of the attempt does the relayer take?  waitForStart subscribes to start messages, the
+	// coordinator's ready loop to ready messages
+	o.Coordinates = sawCoordinatorSide(cm, d, c.Sid)
+	offered := 0
 loop:
 	for i := range c.Msgs {
+		if o.Coordinates {
+			break // it does not wait for anybody's messages: nothing to feed
+		}
 		m := c.Msgs[i]
 		from := t.ids[m.From]
 		consumed := false
+		offered = i + 1
 		switch m.Type {
 		case "initiate":
 			consumed = d.Deliver(comm.TssInitiateMsg, 1, from, []byte{})
@@ -406,6 +437,9 @@ loop:
 			consumed = d.Deliver(comm.TssFailMsg, 1, from, []byte{})
 		default:
 			panic("unknown message type " + m.Type)
+		}
+		if !consumed && d.Finished() {
+			o.Dropped = append(o.Dropped, i)
 		}
 		if consumed && endsSession(m) {
 			last = &c.Msgs[i]
@@ -424,6 +458,9 @@ loop:
 			break loop
 		}
 	}
+	for j := offered; j < len(c.Msgs); j++ {
+		o.Dropped = append(o.Dropped, j)
+	}
 	cancel()
 	if !d.WaitDone() {
 		o.OtherError = "Execute did not return"
@@ -431,32 +468,293 @@ loop:
 		return
 	}
 	noteDriver(o, d)
+	if cm.CountSent(comm.TssInitiateMsg) > 0 || cm.CountSent(comm.TssStartMsg) > 0 {
+		o.Coordinates = true // only the coordinator of an attempt broadcasts initiate / start messages
+	}
+	var other string
+	o.Outs, other = sessionOuts(t, cm, proc, c.Sid, ferr, last, sawBad)
+	if other != "" {
+		o.OtherError = other
+	}
+}
+
+// sawCoordinatorSide waits until the session shows which side of its attempt the relayer takes and
+// reports whether it is the coordinator's (a subscription to ready messages).
+func sawCoordinatorSide(cm *fk.ScriptComm, d *fk.C07Driver, sid string) bool {
+	limit := fk.C07Deadline()
+	sub := cm.WaitAnySub(sid, []fk.ScriptWant{{Type: comm.TssStartMsg, Ordinal: 1}, {Type: comm.TssReadyMsg, Ordinal: 1}}, d.Done, limit)
+	if sub == nil {
+		if !d.Finished() {
+			d.Expired(limit)
+		}
+		return false
+	}
+	return sub.Type == comm.TssReadyMsg
+}
+
+// sessionOuts: what the relayer did in one session, in the order ready messages, Run calls, end.
+func sessionOuts(t tbl, cm *fk.ScriptComm, proc *fk.ScriptProcess, sid string, ferr error, last *Msg, sawBad bool) (outs []Out, other string) {
+	return sessionOutsFrom(t, cm, proc, sid, ferr, last, sawBad, 0, 0)
+}
+
+// sessionOutsFrom: the same without the first skipReady ready messages and the first skipRuns Run calls of
+// the session (those of a scripted first attempt).
+func sessionOutsFrom(t tbl, cm *fk.ScriptComm, proc *fk.ScriptProcess, sid string, ferr error, last *Msg, sawBad bool,
+	skipReady, skipRuns int) (outs []Out, other string) {
+	k := 0
 	for _, s := range cm.Sent() {
-		if s.Type == comm.TssReadyMsg {
+		if s.Type == comm.TssReadyMsg && s.Session == sid {
+			k++
+			if k <= skipReady {
+				continue
+			}
 			p := unknownPeer
 			if len(s.To) == 1 {
 				p = t.index(s.To[0])
 			}
-			o.Outs = append(o.Outs, Out{Kind: "ready", Peer: p})
+			outs = append(outs, Out{Kind: "ready", Peer: p})
 		}
 	}
-	for _, r := range proc.Runs() {
+	for i, r := range proc.Runs() {
+		if i < skipRuns {
+			continue
+		}
 		ps, ok := fk.C07DecodeParams(r.Params)
 		a := t.indices(ps)
 		if !ok || r.Coordinator {
 			a = []int{unknownPeer}
 		}
-		o.Outs = append(o.Outs, Out{Kind: "run", Params: a})
+		outs = append(outs, Out{Kind: "run", Params: a})
 	}
 	switch sessionEnd(ferr, last, sawBad) {
 	case "":
 	case "abort":
-		o.Outs = append(o.Outs, Out{Kind: "abort"})
+		outs = append(outs, Out{Kind: "abort"})
 	case "badstart":
-		o.Outs = append(o.Outs, Out{Kind: "badstart"})
+		outs = append(outs, Out{Kind: "badstart"})
 	default:
-		o.OtherError = ferr.Error()
+		other = ferr.Error()
 	}
+	return outs, other
+}
+
+// ---- several sessions on one Coordinator object ------------------------------------------------------
+
+// runMulti drives ONE real tss.Coordinator through several overlapping sessions: Execute is called once
+// per session (at the scripted "launch" events, each in its own goroutine, as the relayer's job
+// handlers do), all sessions share the host, the Communication and the Coordinator object.  The
+// messages of the script are handed over one at a time, each to the subscriptions of its own session.
+//
+// Cause = comm: the scripted launch of a session also plays its FIRST attempt (the elected coordinator's
+// initiate and start message, the process fails with a CommunicationError) and the bully election of the
+// retry (the REAL bully elector over a second scripted Communication; Winners[k] announces itself in
+// session k); the messages of the script are those of the retried attempts.
+func runMulti(c Case, t tbl, o *Obs) {
+	wait := 300 * time.Millisecond
+	if driveMulti(c, t, o, wait) {
+		*o = Obs{Keys: o.Keys, Coord: -1, CoordPerm: -1}
+		if driveMulti(c, t, o, 1500*time.Millisecond) {
+			o.Harness = "a scripted winner of a bully election lost the race twice"
+		}
+	}
+}
+
+func driveMulti(c Case, t tbl, o *Obs, bullyWait time.Duration) (raceLost bool) {
+	self := t.ids[c.Self]
+	holders := t.pick(c.Holders)
+	h := fk.NewScriptHost(self, t.ids)
+	cm := fk.NewScriptComm()
+	co := newCoordinator(h, cm)
+	retried := c.Cause != ""
+	if retried {
+		if c.Cause != "comm" || len(c.Winners) != len(c.Sids) {
+			panic("multi case: retried attempts need cause comm and one winner per session")
+		}
+		bully := fk.NewScriptComm()
+		winner := map[string]peer.ID{}
+		for k, sid := range c.Sids {
+			winner[sid] = t.ids[c.Winners[k]]
+		}
+		bully.OnSubscribe = func(s *fk.ScriptSub) {
+			if w, ok := winner[s.Session]; ok && s.Type == comm.CoordinatorSelectMsg {
+				fk.ScriptPush(s, w, []byte{}, fk.C07Deadline(), s.Dead)
+			}
+		}
+		co = tss.NewCoordinator(h, cm, elector.NewCoordinatorElectorFactoryWithComm(h, bully, relayer.BullyConfig{
+			PingWaitTime: time.Second, PingBackOff: time.Second, PingInterval: time.Second,
+			ElectionWaitTime: 5 * time.Millisecond, BullyWaitTime: bullyWait,
+		}))
+		co.CoordinatorTimeout = time.Hour
+		co.TssTimeout = time.Hour
+		co.InitiatePeriod = time.Hour
+	}
+	type sess struct {
+		expected    peer.ID // whose messages the session is to obey
+		ord         int     // which subscription of the session the attempt under observation reads
+		skipReady   int
+		skipRuns    int
+		sid         string
+		proc        *fk.ScriptProcess
+		done        chan struct{}
+		res         chan interface{}
+		ferr        error
+		d           *fk.C07Driver
+		genuine     peer.ID
+		last        *Msg
+		sawBad      bool
+		launched    bool
+		coordinates bool
+	}
+	ctx, cancel := context.WithCancel(context.Background())
+	defer cancel()
+	var box crashBox
+	defer box.rethrow()
+	ss := make([]*sess, len(c.Sids))
+	seen := map[string]bool{}
+	for i, sid := range c.Sids {
+		if seen[sid] {
+			panic("multi case: the session ids must differ")
+		}
+		seen[sid] = true
+		inner, err := fk.C07Signing(c.Proc, repo, sid, h, cm, holders, c.T)
+		if err != nil {
+			panic(err)
+		}
+		proc := fk.NewScriptProcess(sid, inner)
+		genuine, _ := elector.NewCoordinatorElector(sid).Coordinator(context.Background(), holders)
+		proc.Behave = func(n int, ctx context.Context) error {
+			if retried && n == 0 {
+				return &comm.CommunicationError{Peer: genuine, Err: errors.New("stream reset")}
+			}
+			<-ctx.Done()
+			return nil
+		}
+		done := make(chan struct{})
+		ss[i] = &sess{sid: sid, proc: proc, done: done, res: make(chan interface{}, 8), genuine: genuine,
+			expected: genuine, ord: 1, d: &fk.C07Driver{Comm: cm, Proc: proc, Sid: sid, Done: done}}
+		if retried {
+			if genuine == self {
+				panic("multi case: retried attempts need the non-coordinator role")
+			}
+			ss[i].expected = t.ids[c.Winners[i]]
+		}
+		o.SKeys = append(o.SKeys, keys(t, sid))
+	}
+	for i := range c.Msgs {
+		m := c.Msgs[i]
+		if m.S < 0 || m.S >= len(ss) {
+			panic("multi case: no such session")
+		}
+		s := ss[m.S]
+		if m.Type == "launch" {
+			if s.launched {
+				panic("multi case: a session is launched once")
+			}
+			s.launched = true
+			go func() {
+				defer close(s.done)
+				defer box.guard()
+				s.ferr = co.Execute(ctx, []tss.TssProcess{s.proc}, s.res)
+			}()
+			// the next event is handed over when the session exists (its attempt has chosen its side)
+			s.coordinates = sawCoordinatorSide(cm, s.d, s.sid)
+			if retried && !s.coordinates {
+				// the first attempt, and the retry up to the wait for the re-elected coordinator
+				s.d.Deliver(comm.TssInitiateMsg, 1, s.genuine, []byte{})
+				s.d.Deliver(comm.TssStartMsg, 1, s.genuine, fk.C07StartPayload(t.pick(c.Start1)))
+				if !s.d.WaitRuns(1) {
+					o.Harness = "first attempt did not reach Run"
+					break
+				}
+				s.skipRuns, s.ord = 1, 2
+				limit := fk.C07Deadline()
+				sub := cm.WaitAnySub(s.sid, []fk.ScriptWant{{Type: comm.TssStartMsg, Ordinal: 2}, {Type: comm.TssReadyMsg, Ordinal: 1}}, s.done, limit)
+				if sub == nil {
+					if !s.d.Finished() {
+						s.d.Expired(limit)
+					}
+					o.Harness = "no retried attempt"
+					break
+				}
+				if sub.Type == comm.TssReadyMsg {
+					raceLost = true
+					break
+				}
+				for _, x := range cm.Sent() {
+					if x.Type == comm.TssReadyMsg && x.Session == s.sid {
+						s.skipReady++
+					}
+				}
+			}
+			continue
+		}
+		if !s.launched {
+			panic("multi case: a message for a session that was not launched")
+		}
+		if s.coordinates {
+			o.Dropped = append(o.Dropped, i)
+			continue
+		}
+		from := t.ids[m.From]
+		consumed := false
+		switch m.Type {
+		case "initiate":
+			consumed = s.d.Deliver(comm.TssInitiateMsg, s.ord, from, []byte{})
+		case "start":
+			payload := []byte("{not a start message")
+			if !m.Bad {
+				payload = fk.C07StartPayload(t.pick(m.Params))
+			}
+			consumed = s.d.Deliver(comm.TssStartMsg, s.ord, from, payload)
+			if consumed && from == s.expected && !m.Bad {
+				s.proc.WaitRuns(s.skipRuns+1, s.done, fk.C07Settle)
+			}
+		case "fail":
+			consumed = s.d.Deliver(comm.TssFailMsg, s.ord, from, []byte{})
+		default:
+			panic("unknown message type " + m.Type)
+		}
+		if !consumed && s.d.Finished() {
+			o.Dropped = append(o.Dropped, i)
+		}
+		if consumed && endsSession(m) {
+			s.last = &c.Msgs[i]
+			s.sawBad = s.sawBad || m.Type == "start"
+			// whether the session ends on it is an observation; the script goes on either way
+			// (as the code stands a retried attempt ignores every fail message)
+			settle := fk.C07Quiet
+			if from == s.expected && !(retried && m.Type == "fail") {
+				settle = fk.C07Settle
+			}
+			s.d.Settled(settle)
+		}
+	}
+	cancel()
+	for _, s := range ss {
+		if !s.launched {
+			o.SOuts = append(o.SOuts, nil)
+			continue
+		}
+		if !s.d.WaitDone() {
+			o.OtherError = "Execute did not return"
+			noteDriver(o, s.d)
+			o.SOuts = append(o.SOuts, nil)
+			continue
+		}
+		noteDriver(o, s.d)
+		outs, other := sessionOutsFrom(t, cm, s.proc, s.sid, s.ferr, s.last, s.sawBad, s.skipReady, s.skipRuns)
+		if other != "" && o.OtherError == "" {
+			o.OtherError = other
+		}
+		o.SOuts = append(o.SOuts, outs)
+		if s.coordinates {
+			o.Coordinates = true
+		}
+	}
+	if cm.CountSent(comm.TssInitiateMsg) > 0 || cm.CountSent(comm.TssStartMsg) > 0 {
+		o.Coordinates = true
+	}
+	return raceLost
 }
 
 // noteDriver: a wait of the driver ran into a SHORTENED deadline (the run is degraded after three stuck
@@ -617,11 +915,13 @@ func driveRetry(c Case, t tbl, o *Obs, bullyWait time.Duration) (raceLost bool) 
 			}
 		}
 	default:
+		offered := 0
 	loop:
 		for i := range c.Msgs {
 			m := c.Msgs[i]
 			from := t.ids[m.From]
 			consumed := false
+			offered = i + 1
 			switch m.Type {
 			case "initiate":
 				consumed = d.Deliver(comm.TssInitiateMsg, startOrd, from, []byte{})
@@ -640,6 +940,9 @@ func driveRetry(c Case, t tbl, o *Obs, bullyWait time.Duration) (raceLost bool) 
 			default:
 				panic("unknown message type " + m.Type)
 			}
+			if !consumed && d.Finished() {
+				o.Dropped = append(o.Dropped, i)
+			}
 			if consumed && endsSession(m) {
 				last = &c.Msgs[i]
 				sawBad = sawBad || m.Type == "start"
@@ -655,6 +958,9 @@ func driveRetry(c Case, t tbl, o *Obs, bullyWait time.Duration) (raceLost bool) 
 			if d.Finished() {
 				break loop
 			}
+		}
+		for j := offered; j < len(c.Msgs); j++ {
+			o.Dropped = append(o.Dropped, j)
 		}
 	}
 	cancel()
@@ -1066,6 +1372,8 @@ func runNow(c Case) Obs {
 		runRetry(c, t, &o)
 	case "timed":
 		runTimed(c, t, &o)
+	case "multi":
+		runMulti(c, t, &o)
 	default:
 		panic("unknown kind " + c.Kind)
 	}
@@ -1135,8 +1443,7 @@ func permutations(xs []int) [][]int {
 func specCoordinator(peers []string, sid string, holders []int) int {
 	best, bk := -1, uint64(0)
 	for _, h := range holders {
-		id, _ := peer.Decode(peers[h])
-		k := fk.C07SortKey(id, sid)
+		k := fk.C07SortKey(mustPeer(peers[h]), sid)
 		if best == -1 || k > bk {
 			best, bk = h, k
 		}
@@ -1173,6 +1480,17 @@ func genElect(r *vgen.Rng, tier string) []Case {
 			out = append(out, Case{Kind: "elect", Peers: peers, Sid: sid, Holders: hs, Perm: shuffled(r, hs)})
 		}
 	}
+	// key holders with look-alike ids (all well-formed): the order and the coordinator follow the WHOLE id
+	for k := 0; k < 10*reps; k++ {
+		n := r.Range(2, 5)
+		c := Case{Kind: "elect", Peers: genTable(r, n), Sid: genSid(r)}
+		for j := r.Range(1, 3); j > 0; j-- {
+			c.addTwin(r, r.Intn(len(c.Peers)), "", true)
+		}
+		c.Holders = shuffled(r, seq(len(c.Peers)))
+		c.Perm = shuffled(r, c.Holders)
+		out = append(out, c)
+	}
 	// a peer listed twice
 	for k := 0; k < 4*reps; k++ {
 		n := r.Range(2, 6)
@@ -1192,6 +1510,14 @@ func genParams(r *vgen.Rng, tier string) []Case {
 		nh := r.Range(1, 7)
 		m := nh + r.Intn(3)
 		t := r.Intn(nh + 1)
+		lk := Case{Peers: genTable(r, m)}
+		if i%4 == 3 {
+			// peers without a key share whose ids look like a key holder's report ready
+			for j := r.Range(1, 3); j > 0; j-- {
+				lk.addTwin(r, r.Intn(nh), "", false)
+			}
+			m = len(lk.Peers)
+		}
 		var ready []int
 		switch r.Intn(4) {
 		case 0: // exactly t+1 holders plus outsiders
@@ -1215,7 +1541,7 @@ func genParams(r *vgen.Rng, tier string) []Case {
 		default:
 			ready = randList(r, m, r.Intn(10)) // may hold duplicates
 		}
-		out = append(out, Case{Kind: "params", Peers: genTable(r, m), Sid: genSid(r), Holders: shuffled(r, seq(nh)),
+		out = append(out, Case{Kind: "params", Peers: lk.Peers, Twins: lk.Twins, Sid: genSid(r), Holders: shuffled(r, seq(nh)),
 			T: t, Proc: vgen.Pick(r, []string{"ecdsa", "frost"}), Ready: ready})
 	}
 	return out
@@ -1240,6 +1566,15 @@ func genSubset(r *vgen.Rng, tier string) []Case {
 			t = 0
 		}
 		c := Case{Kind: "subset", Peers: peers, Sid: sid, Holders: holders, T: t, Proc: vgen.Pick(r, []string{"ecdsa", "frost"})}
+		if i%3 == 2 {
+			// peers without a key share whose ids look like a key holder's (this relayer's too) send ready
+			// messages (and, in the hook cases, may be excluded: their originals are not)
+			for j := r.Range(1, 3); j > 0; j-- {
+				c.addTwin(r, holders[r.Intn(nh)], "", false)
+			}
+			peers = c.Peers
+			m = len(peers)
+		}
 		if i%2 == 0 {
 			c.Via = "execute"
 			c.Self = specCoordinator(peers, sid, holders)
@@ -1267,9 +1602,9 @@ func genSubset(r *vgen.Rng, tier string) []Case {
 
 func genWait(r *vgen.Rng, tier string) []Case {
 	var out []Case
-	n := 130
+	n := 156
 	if tier == "thorough" {
-		n = 1500
+		n = 1800
 	}
 	for i := 0; i < n; i++ {
 		nh := r.Range(2, 7)
@@ -1281,7 +1616,46 @@ func genWait(r *vgen.Rng, tier string) []Case {
 		for self == co {
 			self = holders[r.Intn(nh)]
 		}
-		params := func() []int { return shuffled(r, seq(m))[:r.Range(0, m)] }
+		// look-alikes of the coordinator: other peers (some of them key holders) whose ids agree with the
+		// coordinator's under a lossy projection send the forged messages (2 cases of 6), or ARE this
+		// relayer, which then must not take the coordinator's part (1 case of 6)
+		lk := Case{Peers: peers}
+		var twins []int
+		mode := [6]int{0, 1, 0, 2, 1, 0}[i%6]
+		coTwin := func(wellFormed bool) int {
+			tw := lk.addTwin(r, co, "", wellFormed)
+			if tw >= 0 && !isRawPeer(lk.Peers[tw]) && r.Chance(1, 2) {
+				// the look-alike holds a key share too (a legitimate committee member); if it out-ranks the
+				// peer it was derived from the two swap parts
+				at := r.Intn(len(holders) + 1)
+				holders = append(holders[:at], append([]int{tw}, holders[at:]...)...)
+				if nc := specCoordinator(lk.Peers, sid, holders); nc != co {
+					tw, co = co, nc
+				}
+			}
+			return tw
+		}
+		if mode == 2 {
+			if tw := coTwin(r.Chance(1, 2)); tw >= 0 {
+				self = tw
+			}
+		}
+		if mode >= 1 {
+			for k := r.Range(1, 3); k > 0; k-- {
+				if tw := coTwin(r.Chance(1, 3)); tw >= 0 {
+					twins = append(twins, tw)
+				}
+			}
+		}
+		peers = lk.Peers
+		m = len(peers)
+		var wellFormed []int
+		for p := range peers {
+			if !isRawPeer(peers[p]) {
+				wellFormed = append(wellFormed, p)
+			}
+		}
+		params := func() []int { return shuffled(r, wellFormed)[:r.Range(0, len(wellFormed))] }
 		I := Msg{Type: "initiate", From: co}
 		S := func() Msg { return Msg{Type: "start", From: co, Params: params()} }
 		B := Msg{Type: "start", From: co, Bad: true}
@@ -1309,6 +1683,9 @@ func genWait(r *vgen.Rng, tier string) []Case {
 			from := r.Intn(m)
 			for from == co {
 				from = r.Intn(m)
+			}
+			if len(twins) > 0 && r.Chance(2, 3) {
+				from = vgen.Pick(r, twins)
 			}
 			switch r.Intn(4) {
 			case 0:
@@ -1359,7 +1736,30 @@ func genWait(r *vgen.Rng, tier string) []Case {
 				}
 			}
 		}
-		out = append(out, Case{Kind: "wait", Peers: peers, Sid: sid, Holders: holders, T: r.Range(1, nh-1), Self: self,
+		// every look-alike sends one message of every type the relayer reacts to: initiate and start while
+		// the relayer waits, fail at any time before the session ends
+		for _, tw := range twins {
+			for _, ty := range []string{"initiate", "start", "fail"} {
+				upto := len(msgs)
+				for k, mm := range msgs {
+					if mm.From != co {
+						continue
+					}
+					ends := mm.Type == "fail" || mm.Type == "start" && mm.Bad
+					if ends || ty != "fail" && mm.Type == "start" {
+						upto = k
+						break
+					}
+				}
+				mm := Msg{Type: ty, From: tw}
+				if ty == "start" {
+					mm.Params = params()
+				}
+				at := r.Intn(upto + 1)
+				msgs = append(msgs[:at], append([]Msg{mm}, msgs[at:]...)...)
+			}
+		}
+		out = append(out, Case{Kind: "wait", Peers: peers, Twins: lk.Twins, Sid: sid, Holders: holders, T: r.Range(1, nh-1), Self: self,
 			Proc: vgen.Pick(r, []string{"ecdsa", "frost"}), Msgs: msgs})
 	}
 	return out
@@ -1368,7 +1768,7 @@ func genWait(r *vgen.Rng, tier string) []Case {
 
 func sortedByKey(peers []string, sid string, is []int) []int {
 	out := append([]int{}, is...)
-	key := func(i int) uint64 { id, _ := peer.Decode(peers[i]); return fk.C07SortKey(id, sid) }
+	key := func(i int) uint64 { return fk.C07SortKey(mustPeer(peers[i]), sid) }
 	for i := 1; i < len(out); i++ {
 		for j := i; j > 0 && key(out[j]) > key(out[j-1]); j-- {
 			out[j], out[j-1] = out[j-1], out[j]
@@ -1452,7 +1852,28 @@ func genRetry(r *vgen.Rng, tier string) []Case {
 				c.Winner = &w
 			}
 		}
+		// every other case: peers that hold no key share and whose ids look like the id of the retried
+		// attempt's coordinator (the scripted winner, or this relayer itself), of the first attempt's
+		// coordinator or of an excluded peer take part: they are the preferred senders of forged messages
+		var twins []int
+		m0 := m // start params name peers of the original table only (raw ids do not survive their encoding)
+		if i%2 == 1 {
+			bases := []int{c.Self, order[0]}
+			if c.Winner != nil {
+				bases = []int{*c.Winner, *c.Winner, order[0]}
+			}
+			bases = append(bases, c.Excluded...)
+			for j := r.Range(1, 3); j > 0; j-- {
+				if tw := c.addTwin(r, vgen.Pick(r, bases), "", false); tw >= 0 {
+					twins = append(twins, tw)
+				}
+			}
+			m = len(c.Peers)
+		}
 		forger := func(not int) int { // any peer of the table except this relayer and [not]
+			if len(twins) > 0 && r.Chance(1, 2) {
+				return vgen.Pick(r, twins)
+			}
 			for {
 				p := r.Intn(m)
 				if p != c.Self && p != not {
@@ -1481,7 +1902,7 @@ func genRetry(r *vgen.Rng, tier string) []Case {
 			c.Evs = evs
 		} else {
 			co := *c.Winner
-			params := func() []int { return shuffled(r, seq(m))[:r.Range(0, m)] }
+			params := func() []int { return shuffled(r, seq(m0))[:r.Range(0, m0)] }
 			I := Msg{Type: "initiate", From: co}
 			S := func() Msg { return Msg{Type: "start", From: co, Params: params()} }
 			B := Msg{Type: "start", From: co, Bad: true}
@@ -1596,6 +2017,12 @@ func genTimed(r *vgen.Rng, tier string) []Case {
 			if (v == 11 || v == 12) && order[0] != co {
 				forgers = append([]int{order[0]}, forgers...) // the first attempt's coordinator keeps talking
 			}
+			if (k+v)%2 == 1 {
+				// a peer whose id looks like the awaited coordinator's does the talking
+				if tw := c.addTwin(r, co, "", false); tw >= 0 {
+					forgers = append([]int{tw}, forgers...)
+				}
+			}
 			if len(forgers) > 2 {
 				forgers = forgers[:2]
 			}
@@ -1685,6 +2112,273 @@ func genTimed(r *vgen.Rng, tier string) []Case {
 	return out
 }
 
+// genMulti: two or three sessions with DIFFERENT elected coordinators overlap on one Coordinator object of a
+// relayer that coordinates none of them.  While they overlap every session is sent fail (and initiate /
+// start) messages by the coordinators of the OTHER sessions - for it they are just peers that are not its
+// coordinator - and by its own.  One case in four runs its first session to the end before the next one is
+// launched (a long-lived Coordinator must not remember the coordinator of a session that is over).
+func genMulti(r *vgen.Rng, tier string) []Case {
+	var out []Case
+	n := 24
+	if tier == "thorough" {
+		n = 260
+	}
+	for i := 0; i < n; i++ {
+		ns := 2
+		if i%3 == 2 {
+			ns = 3
+		}
+		nh := r.Range(ns+1, 6)
+		m := nh + r.Intn(2)
+		c := Case{Kind: "multi", Peers: genTable(r, m), Holders: shuffled(r, seq(nh)), T: r.Range(1, nh-1),
+			Proc: vgen.Pick(r, []string{"ecdsa", "frost"})}
+		// session ids whose elected coordinators differ (the third of three sessions may share one)
+		var cos []int
+		for tries := 0; len(c.Sids) < ns && tries < 400; tries++ {
+			sid := genSid(r)
+			co := specCoordinator(c.Peers, sid, c.Holders)
+			fresh := true
+			for k := range c.Sids {
+				if c.Sids[k] == sid {
+					fresh = false
+				} else if cos[k] == co && !(len(c.Sids) == 2 && r.Chance(1, 4)) {
+					fresh = false
+				}
+			}
+			if fresh {
+				c.Sids, cos = append(c.Sids, sid), append(cos, co)
+			}
+		}
+		if len(c.Sids) < ns {
+			continue
+		}
+		isCo := func(p int) bool {
+			for _, x := range cos {
+				if x == p {
+					return true
+				}
+			}
+			return false
+		}
+		var cand []int
+		for _, h := range c.Holders {
+			if !isCo(h) {
+				cand = append(cand, h)
+			}
+		}
+		c.Self = vgen.Pick(r, cand)
+		// one case in four: every session is in its RETRIED attempt (the first one failed with a
+		// CommunicationError); the scripted bully elections are won by earlier candidates, different ones in
+		// different sessions where there are any.  From here on cos = the coordinators of the attempts under
+		// observation, firsts = those of the failed first attempts
+		sequential := i%4 == 3
+		retried := i%4 == 2
+		firsts := append([]int{}, cos...)
+		if retried {
+			c.Cause = "comm"
+			c.Start1 = shuffled(r, c.Holders)[:c.T+1]
+			for k := range c.Sids {
+				var earlier, unused []int
+				for _, p := range sortedByKey(c.Peers, c.Sids[k], c.Holders) {
+					if p == c.Self {
+						break
+					}
+					earlier = append(earlier, p)
+					used := false
+					for _, w := range c.Winners {
+						used = used || w == p
+					}
+					if !used {
+						unused = append(unused, p)
+					}
+				}
+				if len(unused) > 0 {
+					earlier = unused
+				}
+				w := vgen.Pick(r, earlier)
+				c.Winners = append(c.Winners, w)
+				cos[k] = w
+			}
+		}
+		// every other case: a look-alike of a session's coordinator (not a key holder) takes part too
+		twinOf, twin := -1, -1
+		if (i/3)%2 == 1 {
+			twinOf = r.Intn(ns)
+			twin = c.addTwin(r, cos[twinOf], "", false)
+		}
+		m = len(c.Peers)
+		var wellFormed []int
+		for p := range c.Peers {
+			if !isRawPeer(c.Peers[p]) {
+				wellFormed = append(wellFormed, p)
+			}
+		}
+		params := func() []int { return shuffled(r, wellFormed)[:r.Range(0, len(wellFormed))] }
+		order := shuffled(r, seq(ns))
+		build := func(s int) (q []Msg, nEarly int) {
+			co := cos[s]
+			var foreign []int // the coordinators of the relayer's other sessions
+			for k, x := range cos {
+				if k != s && x != co {
+					foreign = append(foreign, x)
+				}
+			}
+			if retried && firsts[s] != co {
+				foreign = append(foreign, firsts[s]) // and the coordinator of the session's failed first attempt
+			}
+			running, quiet, ended := false, 2, false
+			push := func(mm Msg) {
+				if ended {
+					return
+				}
+				mm.S = s
+				if running && mm.Type != "fail" {
+					if quiet == 0 {
+						return
+					}
+					quiet--
+				}
+				q = append(q, mm)
+				if mm.From == co {
+					if mm.Type == "start" && !mm.Bad {
+						running = true
+					}
+					// (as the code stands a retried attempt ignores its coordinator's fail message too)
+					if mm.Type == "fail" && !retried || (mm.Type == "start" && mm.Bad && !running) {
+						ended = true
+					}
+				}
+			}
+			shaped := func(from int, ty int) Msg {
+				switch ty {
+				case 0:
+					return Msg{Type: "initiate", From: from}
+				case 1:
+					return Msg{Type: "start", From: from, Params: params()}
+				case 2:
+					return Msg{Type: "start", From: from, Bad: true}
+				default:
+					return Msg{Type: "fail", From: from}
+				}
+			}
+			forged := func() Msg {
+				var from int
+				switch {
+				case len(foreign) > 0 && r.Chance(2, 3):
+					from = vgen.Pick(r, foreign)
+				case twin >= 0 && twinOf == s && r.Chance(2, 3):
+					from = twin
+				default:
+					from = r.Intn(m)
+					for from == co {
+						from = r.Intn(m)
+					}
+				}
+				return shaped(from, r.Intn(5))
+			}
+			// before the overlap is complete: some of the coordinator's own messages, some forged ones
+			ownEarly := vgen.Pick(r, [][]int{{0, 1}, {0}, {1}, {0, 0, 1}, {}, {}})
+			oe := 0
+			for k := r.Range(0, 4); k > 0; k-- {
+				if oe < len(ownEarly) && r.Chance(1, 2) {
+					push(shaped(co, ownEarly[oe]))
+					oe++
+				} else {
+					push(forged())
+				}
+			}
+			nEarly = len(q)
+			// during the overlap: a fail message from the coordinator of every other session (and more), merged
+			// with how the session's own coordinator ends it
+			var must, cross []Msg // must: they arrive before the session's own coordinator ends it
+			for _, f := range foreign {
+				must = append(must, shaped(f, 3))
+				if r.Chance(1, 2) {
+					cross = append(cross, shaped(f, r.Intn(4)))
+				}
+			}
+			if twin >= 0 && twinOf == s {
+				must = append(must, shaped(twin, 3))
+				cross = append(cross, shaped(twin, r.Intn(4)))
+			}
+			for k := r.Range(0, 3); k > 0; k-- {
+				cross = append(cross, forged())
+			}
+			r.Shuffle(len(must), func(a, b int) { must[a], must[b] = must[b], must[a] })
+			r.Shuffle(len(cross), func(a, b int) { cross[a], cross[b] = cross[b], cross[a] })
+			// the rest of the cross traffic goes anywhere among and after them
+			for _, x := range cross {
+				at := r.Intn(len(must) + 1)
+				must = append(must[:at], append([]Msg{x}, must[at:]...)...)
+			}
+			nMust := 0
+			for k, x := range must {
+				if x.Type == "fail" {
+					nMust = k + 1
+				}
+			}
+			cross = must
+			ownLate := vgen.Pick(r, [][]int{{3}, {2}, {}, {1, 3}, {0, 1}, {0, 3}, {1}, {0, 1, 3}})
+			if sequential && s == order[0] {
+				ownLate = vgen.Pick(r, [][]int{{3}, {1, 3}, {0, 1, 3}})
+			}
+			ci, oi := 0, 0
+			for ci < len(cross) || oi < len(ownLate) {
+				ownEnds := oi < len(ownLate) && (ownLate[oi] == 3 && !retried || ownLate[oi] == 2 && !running)
+				if oi < len(ownLate) && (ci == len(cross) || r.Chance(1, 3)) && !(ownEnds && ci < nMust && r.Chance(5, 6)) {
+					push(shaped(co, ownLate[oi]))
+					oi++
+				} else {
+					push(cross[ci])
+					ci++
+				}
+			}
+			return q, nEarly
+		}
+		qs := make([][]Msg, ns)
+		early := make([]int, ns) // how many messages of a session may precede the launch of the last session
+		for s := 0; s < ns; s++ {
+			qs[s], early[s] = build(s)
+		}
+		var script []Msg
+		var launched []int
+		pop := func(s int) {
+			script = append(script, qs[s][0])
+			qs[s] = qs[s][1:]
+			early[s]--
+		}
+		some := func(k int) {
+			for ; k > 0; k-- {
+				var live []int
+				for _, s := range launched {
+					if len(qs[s]) > 0 && (early[s] > 0 || len(launched) == ns) {
+						live = append(live, s)
+					}
+				}
+				if len(live) == 0 {
+					return
+				}
+				pop(vgen.Pick(r, live))
+			}
+		}
+		for idx, s := range order {
+			script = append(script, Msg{Type: "launch", S: s})
+			launched = append(launched, s)
+			if sequential && idx == 0 {
+				for len(qs[s]) > 0 {
+					pop(s)
+				}
+			} else if idx < ns-1 {
+				some(r.Range(0, 3))
+			}
+		}
+		some(1 << 20)
+		c.Msgs = script
+		out = append(out, c)
+	}
+	return out
+}
+
 func gen(r *vgen.Rng, tier string) []Case {
 	var out []Case
 	out = append(out, genElect(r, tier)...)
@@ -1693,6 +2387,7 @@ func gen(r *vgen.Rng, tier string) []Case {
 	out = append(out, genWait(r, tier)...)
 	out = append(out, genRetry(r, tier)...)
 	out = append(out, genTimed(r, tier)...)
+	out = append(out, genMulti(r, tier)...)
 	prefetch(out, 4)
 	return out
 }
@@ -1722,7 +2417,7 @@ func prefetch(cases []Case, workers int) {
 	var todo []Case
 	preMu.Lock()
 	for _, c := range cases {
-		if c.Kind != "timed" && c.Kind != "retry" && c.Kind != "wait" {
+		if c.Kind != "timed" && c.Kind != "retry" && c.Kind != "wait" && c.Kind != "multi" {
 			continue
 		}
 		k := caseKey(c)
@@ -1843,6 +2538,21 @@ func msN(ms int) string {
 	return vgen.N(uint64(ms))
 }
 
+// arrived: the messages of the script that arrived (see Obs.Dropped), launches left out.
+func arrived(c Case, o Obs) []Msg {
+	gone := map[int]bool{}
+	for _, i := range o.Dropped {
+		gone[i] = true
+	}
+	out := []Msg{}
+	for i, m := range c.Msgs {
+		if !gone[i] && m.Type != "launch" {
+			out = append(out, m)
+		}
+	}
+	return out
+}
+
 func coq(c Case, o Obs) string {
 	if o.Harness != "" {
 		// the runner could not drive the case: never judged, counted as broken correspondence
@@ -1862,7 +2572,7 @@ func coq(c Case, o Obs) string {
 	case "retry":
 		if c.Winner != nil {
 			return "RetryWait " + KL(o.Keys) + " " + PL(c.Holders) + " " + P(c.Self) + " " + P(*c.Winner) + " " +
-				vgen.ListOf(c.Msgs, coqMsg) + " " + vgen.ListOf(o.Outs, coqOut) + " " + vgen.Bool(o.OtherError != "")
+				vgen.ListOf(arrived(c, o), coqMsg) + " " + vgen.ListOf(o.Outs, coqOut) + " " + vgen.Bool(o.OtherError != "")
 		}
 		return "RetryCoord " + KL(o.Keys) + " " + PL(c.Holders) + " " + vgen.Z(int64(c.T)) + " " + PL(c.Excluded) + " " + P(c.Self) + " " +
 			vgen.ListOf(c.Evs, func(e Ev) string { return vgen.Pair(vgen.Bool(e.Ready), P(e.From)) }) + " " +
@@ -1903,34 +2613,71 @@ func coq(c Case, o Obs) string {
 				return "OAbort"
 			}
 		}
-		return "Wait " + KL(o.Keys) + " " + PL(c.Holders) + " " + P(c.Self) + " " + vgen.ListOf(c.Msgs, msg) + " " +
-			vgen.ListOf(o.Outs, out) + " " + vgen.Bool(o.OtherError != "")
+		return "Wait " + KL(o.Keys) + " " + PL(c.Holders) + " " + P(c.Self) + " " + vgen.ListOf(arrived(c, o), msg) + " " +
+			vgen.ListOf(o.Outs, out) + " " + vgen.Bool(o.Coordinates) + " " + vgen.Bool(o.OtherError != "")
+	case "multi":
+		script := arrived(c, o)
+		souts := o.SOuts
+		for len(souts) < len(c.Sids) {
+			souts = append(souts, nil)
+		}
+		skeys := o.SKeys
+		for len(skeys) < len(c.Sids) {
+			skeys = append(skeys, nil)
+		}
+		winners := make([]string, len(c.Sids))
+		for k := range winners {
+			winners[k] = "None"
+			if c.Cause != "" && k < len(c.Winners) {
+				winners[k] = vgen.Some(P(c.Winners[k]))
+			}
+		}
+		return "Multi " + vgen.ListOf(skeys, KL) + " " + vgen.List(winners) + " " + PL(c.Holders) + " " + P(c.Self) + " " +
+			vgen.ListOf(script, func(m Msg) string { return vgen.Pair(vgen.N(uint64(m.S)), coqMsg(m)) }) + " " +
+			vgen.ListOf(souts, func(l []Out) string { return vgen.ListOf(l, coqOut) }) + " " +
+			vgen.Bool(o.Coordinates) + " " + vgen.Bool(o.OtherError != "")
 	}
 	panic("unknown kind")
 }
 
+// alike: ":alike" for a case whose peer table holds look-alike ids.
+func alike(c Case) string {
+	if len(c.Twins) > 0 {
+		return ":alike"
+	}
+	return ""
+}
+
 func kind(c Case) string {
 	switch c.Kind {
+	case "multi":
+		att := ""
+		if c.Cause != "" {
+			att = ":retried"
+		}
+		return fmt.Sprintf("multi:%dsessions", len(c.Sids)) + att + alike(c)
+	case "elect":
+		return "elect" + alike(c)
 	case "timed":
 		role := "first"
 		if c.Winner != nil {
 			role = "retry"
 		}
-		return "timed:" + role
+		return "timed:" + role + alike(c)
 	case "retry":
 		role := "coord"
 		if c.Winner != nil {
 			role = "wait"
 		}
-		return "retry:" + role + ":" + c.Cause
+		return "retry:" + role + ":" + c.Cause + alike(c)
 	case "subset":
 		ex := "noexcl"
 		if len(c.Excluded) > 0 {
 			ex = "excl"
 		}
-		return "subset:" + c.Via + ":" + c.Proc + ":" + ex
+		return "subset:" + c.Via + ":" + c.Proc + ":" + ex + alike(c)
 	case "params":
-		return "params:" + c.Proc
+		return "params:" + c.Proc + alike(c)
 	case "wait":
 		forged, genuine := 0, 0
 		// the coordinator is not part of the input; classify by message mix only
@@ -1940,7 +2687,12 @@ func kind(c Case) string {
 		}
 		_ = forged
 		_ = genuine
-		return fmt.Sprintf("wait:%dsenders", len(froms))
+		for _, tw := range c.Twins {
+			if tw.Peer == c.Self || tw.Of == c.Self {
+				return fmt.Sprintf("wait:%dsenders:self-alike", len(froms))
+			}
+		}
+		return fmt.Sprintf("wait:%dsenders", len(froms)) + alike(c)
 	}
 	return c.Kind
 }
@@ -1968,6 +2720,14 @@ func main() {
 				return o.Announced != nil
 			case "wait":
 				return len(c.Msgs) >= 2
+			case "multi":
+				n := 0
+				for _, m := range c.Msgs {
+					if m.Type == "fail" {
+						n++
+					}
+				}
+				return len(c.Sids) >= 2 && n >= 1 && o.OtherError == ""
 			case "timed":
 				for _, m := range c.Msgs {
 					if m.At > 0 && o.OtherError == "" && o.TAll != nil {
@@ -1991,13 +2751,17 @@ func main() {
 		Rule: "elect: every permutation of 0..4 listed peers (random ones for 5..7, lists with a repeated peer) x session ids; " +
 			"params: random committees / thresholds / ready lists on the real ECDSA and FROST Signing.Ready+StartParams; " +
 			"subset: real Coordinator in the coordinator role fed ready streams with duplicates, outsiders, excluded peers; " +
-			"wait: real Coordinator.Execute in a non-coordinator role fed genuine and 0..12 forged initiate/start/fail messages in random interleavings; " +
+			"wait: real Coordinator.Execute in a non-coordinator role fed genuine and 0..12 forged initiate/start/fail messages in random interleavings; which side of the attempt the relayer takes is observed too; " +
+			"in a third of the wait cases the forged messages come from 1..3 LOOK-ALIKES of the coordinator (ids that agree with the coordinator's under a lossy projection: one or all middle base58 characters changed, only first 2 + last 6 kept, last characters changed, case of one / all letters changed, one byte changed, strict prefix / extension byte-wise and in the printed form; some of them key holders), each of which sends an initiate, a start and a fail message; in a sixth this relayer's OWN id is such a look-alike; " +
+			"look-alikes of holders / excluded peers / coordinators also in elect, params, subset, retry and timed cases; " +
+			"multi: ONE real Coordinator object, 2..3 overlapping sessions (Execute once per session) with different elected coordinators, this relayer coordinates none; launches interleaved with messages; during the overlap every session gets a fail message (and initiate / start) from every OTHER session's coordinator before its own coordinator ends it; one case in four runs its first session to the end before the next is launched, one in four has every session in its RETRIED attempt (CommunicationError in the first, scripted bully winners, different per session where possible); judged per session; " +
 			"retry: real Coordinator.Execute whose first attempt fails retryably ({silent coordinator, CommunicationError, tss.Error with culprits, CoordinatorError} x {coordinator, other} role), " +
 			"real bully election won by this relayer or by a scripted earlier candidate, retried attempt fed ready / initiate / start messages and forged fail messages from non-coordinators (before and while the process runs); " +
 			"timed: real Coordinator.Execute waiting for its coordinator (first attempt; retried attempt after a scripted bully winner) with CoordinatorTimeout 200..600 ms or TssTimeout 350..450 ms " +
 			"while one or two other peers send forged initiate-only / start-only / fail-only / mixed messages every 12..90 ms until the horizon (1.2..3 s): silent coordinator, coordinator with one initiate message of its own, coordinator that starts / aborts / sends an undecodable start; " +
 			"every such case drives the relayer twice (all messages / the coordinator's own messages only) and compares actions and how the wait ended (which ticker, or still waiting / running at the horizon); " +
-			"distinct = distinct input JSON; non-trivial = >= 2 listed peers / non-empty ready list / a subset was announced / >= 2 messages / a fail message during the retried attempt / a timed case whose runs kept the schedule",
+			"wait / retry / multi: the model and the judge are given the messages that ARRIVED (a message that could not be handed over because its session was over is left out); " +
+			"distinct = distinct input JSON; non-trivial = >= 2 listed peers / non-empty ready list / a subset was announced / >= 2 messages / a fail message during the retried attempt / a timed case whose runs kept the schedule / a multi case with >= 2 sessions and a fail message",
 		ShardSize: 200,
 	})
 }
